@@ -218,7 +218,8 @@ def exec_case(case, cfg):
     seams.reset_world(case["seed"])
     REAL = real_backends()
     fws = case["frameworks"]
-    classes = [type(f"T{k}", (), {}) for k in range(len(fws))]
+    # distinct classes that share one __name__, as torch.Tensor / tinygrad.Tensor / tensorflow.Tensor do
+    classes = [type("Tensor", (), {"__module__": fws[k]["mod"]}) for k in range(len(fws))]
     is_scalar = lambda t: isinstance(t, float | int | bool | np.floating | np.integer | np.bool_)
     stats = {"ops": 0, "lookups": 0, "skipped_ops": 0, "materialisation_invariant_checked": 0}
     faults = {"F-factory-init": 0, "F-late-import": 0, "F-reg-order-permuted": 0}
